@@ -5,12 +5,12 @@ CONSTS = {"CertKeys": '{"k1","k2","k3"}'}
 GEN_CFGS = {}
 
 
-def G(tag, classes, depth, num, props, nidl=False, base=True, sw=False, regw=False, unix=False, nide=False, lstate=False, life=0, so=False, twoh=False):
+def G(tag, classes, depth, num, props, nidl=False, base=True, sw=False, regw=False, unix=False, nide=False, lstate=False, life=0, so=False, twoh=False, lskew=False):
     name = "HandshakeGen_%s.cfg" % tag
     GEN_CFGS[name] = ("SPECIFICATION Spec\nCONSTANTS\n  CertKeys = {\"k1\",\"k2\",\"k3\"}\n  Depth = %d\n  Classes = {%s}\n  CfgNidl = %s\n  CfgBase = %s\nCHECK_DEADLOCK FALSE\n"
                       % (depth, ",".join('"%s"' % c for c in classes), "TRUE" if nidl else "FALSE", "TRUE" if base else "FALSE"))
     return dict(module="HandshakeGen.tla", cfg=name, depth=depth, num=num, props=props, tag=tag,
-                beh_cfg=dict(nidl=nidl, nide=nide, lstate=lstate, base=base, sw=sw, regw=regw, unix=unix, lifeSec=life, so=so, twoh=twoh, certKeys=["k1", "k2", "k3"]))
+                beh_cfg=dict(nidl=nidl, nide=nide, lstate=lstate, lskew=lskew, base=base, sw=sw, regw=regw, unix=unix, lifeSec=life, so=so, twoh=twoh, certKeys=["k1", "k2", "k3"]))
 
 
 def materialise(scr):
@@ -42,6 +42,9 @@ GENS = [
       dict(quick=30, thorough=500), ["C07"]),
     G("c07b", ["NewNode", "DialPending", "AuthorizePending", "Enroll", "Rogue", "Dial"], 9,
       dict(quick=15, thorough=300), ["C07"], sw=True, unix=True),
+    # the listener's own options set the not-after clock skew to zero (an operator tuning request validation)
+    G("c07d", ["NewNode", "DialPending", "AuthorizePending", "Enroll", "Dial", "Dial", "ConnectHonest", "Rogue"], 8,
+      dict(quick=8, thorough=150), ["C07", "C02"], lskew=True),
     # composition: enrolment, node credential rotation, removal of the old / new record, root replacement, dials with current and previous credentials
     G("sys1", ["Enroll", "RotateNode", "RotateNode", "DialPrev", "Dial", "RemovePrev", "Remove", "Reinit", "ConnectHonest"], 12,
       dict(quick=20, thorough=500), ["C02", "C07"], nidl=True),
